@@ -1,11 +1,20 @@
 """C03 - Validation precedes execution: an invalid test case has no effects.
 
-A generated *base case* has observable effects in every phase (marker lines written to a file outside the
-sandbox, probe runs, files/dirs created in the sandbox).  One defective instruction of a generated class is
-inserted at a generated (phase, position).  Oracle: exit 65, identifier in the documented set (and the exact
-one where the manual fixes it), no marker, no probe output, no sandbox directory, cwd unchanged.  Control: the
-base case alone runs to PASS and leaves the markers of every phase in order (so "no effect" is not vacuous).
-`exactly symbol CASE` never executes anything, for base and defective cases alike.
+Three sub-checks:
+* defect_has_no_effect - a generated *base case* with observable effects in every phase (marker lines written to a
+  file outside the sandbox, probe runs, files/dirs created in the sandbox) + one defective instruction from a table of
+  hand-written templates at a generated (phase, position).
+* generated_defect - the defects are generated structurally: a VALID carrier instruction from a grammar with typed
+  holes (vlib/gen/c03_grammar.py, built on the C18 grammar) is placed into such a base case (vlib/gen/c03_cases.py),
+  and ONE defect operator is applied to ONE hole of it.  One control run (the valid case: must execute, with the
+  effects of everything before the carrier) serves several defects; every defect is started in one of the modes
+  run / --keep / --act / symbol / symbol NAME / symbol NAME --ref / suite.
+* enumerated_defects - the same check over a deterministic sample (independent of the seed) that takes every
+  (operator family, hole) of each carrier.
+Oracle: exit 65, identifier in the documented set (and the exact one where the manual fixes it), no marker, no probe
+output, no sandbox directory created (not even one that is removed again), cwd / environment / home directory
+unchanged.  `exactly symbol CASE` never executes anything; on a valid case it lists exactly the defined symbols with
+their types and numbers of references.
 """
 import os
 
@@ -16,21 +25,60 @@ from vlib.runner import Sub, Verdict, fail
 
 PROPERTY_ID = 'C03'
 LEVEL = 'exploration'
-RULE = ('base case = 1-3 effect instructions per phase (marker echo outside the sandbox, probe run, file/dir '
-        'creation) in a random file order of phases; one defective instruction of class {syntax, unknown '
-        'instruction, undefined symbol, symbol defined later (same or later phase), wrong symbol type (direct / via '
-        'intermediate symbol), illegal relativity via symbol, missing home file, bad integer, bad regex, act-phase '
-        'syntax, conf-phase errors} inserted at every (phase, position) incl. the last line of [cleanup]; '
-        'non-trivial = the control run left a marker for every phase and the defect comes after at least one '
-        'effect instruction in document or execution order; distinct = (class variant, phase, position, base shape)')
+RULE = ('defect_has_no_effect: base case = 1-3 effect instructions per phase (marker echo outside the sandbox, probe run, '
+        'file/dir creation) in a random file order of phases; one defective instruction from a table of templates per '
+        'class {syntax, unknown instruction, undefined symbol, symbol defined later, wrong symbol type (direct / via '
+        'intermediate symbol / self reference / inside a FILE-NAME), illegal relativity via symbol, missing home file, '
+        'bad integer, bad regex, act-phase syntax, conf-phase errors} inserted at every (phase, position) incl. the '
+        'last line of [cleanup].  generated_defect / enumerated_defects: one VALID carrier instruction from a grammar '
+        '(every instruction of every phase, every type of def incl. definitions used by a second instruction, [conf] '
+        'instructions, [act] contents of three actors, the including directive; token lists with typed holes) placed at '
+        '(phase, position) in the main file / in an included file (also included from another phase) / in the phase '
+        'section of the suite the case belongs to (exactly.suite or --suite); a defect = ONE operator applied to ONE '
+        'hole: reference {undefined, defined later in the same phase / in a later phase that may stand textually '
+        'earlier, to the symbol being defined, to a symbol of each of the 13 types the hole does not accept, directly or '
+        'through alias chains of 1-3 symbols, non-string inside a FILE-NAME directly or through a string built from a '
+        'list / path}, relativity {option the argument does not accept, path symbol of such a relativity through -rel / '
+        '@[P]@/x / @[P]@ with chains of 1-3 symbols}, file {missing in home / act-home via option, default relativity, '
+        'symbol, symbol chain; missing included file}, value {non-integer / non-evaluable INTEGER also via a string '
+        'symbol, REGEX that does not compile also via symbol, replacement template that does not fit, ill-formed '
+        'line-number range, word outside a closed set, duplicate / ill-formed SYMBOL-NAME}, form {superfluous '
+        'argument, missing argument (at the end of the file), unterminated quote / here-document, unknown option, '
+        'instruction of another phase / misspelt, second line of [act]}; started as run / --keep / --act / symbol / '
+        'symbol NAME / symbol NAME --ref / suite.  The control is the same case without the edit.  non-trivial = the '
+        'control run created a sandbox and left the markers of all earlier phases and of the instructions before the '
+        'carrier in its own phase; distinct = distinct (mode, text of all files).  enumerated_defects is independent of '
+        'the seed: carrier k from random.Random(4200+k), two variants of every (operator family, hole) of it')
 ASSUMPTIONS = [
     'a definition of a matcher/transformer symbol that is never referenced is not validated by the program '
-    '(`def text-matcher M = num-lines == x` unused => PASS): bad integers/regexes are therefore generated only in '
-    'directly used contexts',
-    'the shape "instruction with a missing trailing argument directly before a phase header" is left to C07 '
-    '(known finding there); C03 generates defects whose wrongness does not depend on the following line',
-    'for bad integer / bad regex the manual does not say which of SYNTAX_ERROR / VALIDATION_ERROR is reported: '
-    'both accepted',
+    '(`def text-matcher M = num-lines == x` unused => PASS): ill-formed values (INTEGER, REGEX, replacement, range, '
+    'missing file) are put into instructions that are used, or into definitions that a second instruction uses; '
+    'symbol and syntax defects are put into unused definitions too',
+    'the shape "instruction with a missing trailing argument directly before a phase header / another line" is left '
+    'to C07 (known finding KF-C07-1): "missing argument" is generated only at the very end of a file',
+    'for bad integer / bad regex / bad replacement / bad range / word outside a closed set / relativity option that is '
+    'not accepted the manual does not say which of SYNTAX_ERROR / VALIDATION_ERROR is reported: both accepted; '
+    'symbol defects must be VALIDATION_ERROR, mistakes of form SYNTAX_ERROR, a missing included file FILE_ACCESS_ERROR',
+    'type rule for symbols inside a FILE-NAME (not spelled out by `help syntax PATH`, taken from the note "If '
+    'FILE-NAME begins with a reference to a path symbol, then it is an absolute path" and from the program\'s own '
+    'diagnostics "Illegal type ... Expected: string"): a path symbol may only start a FILE-NAME, a list never fits, '
+    'every other component must be a string that is built from strings only',
+    'accepted relativities are demanded only for arguments that name something to create or change (file, dir, cd, '
+    'copy DESTINATION; per phase: cd accepts -rel-result after [act]); reading arguments accept more than their help '
+    'pages list (see C12) - only -rel-here ("only available when defining a path symbol") is demanded to be refused '
+    'there',
+    'a missing file is demanded to be found before execution only where the manual says the file must exist '
+    '(copy SOURCE, -contents-of, -existing-file/-dir/-path, executable of a program, dir-contents-of, file of the file '
+    'actor, home / act-home) and only when it is relative to a home directory (or the default relativity is one)',
+    '--act: "[before-assert] and [assert] are skipped" - the manual does not say whether they are validated: a '
+    'symbol / value defect there may go unreported under --act (labelled); nothing else is tolerated',
+    '`exactly symbol` reports "errors corresponding to the outcome of running ... but the case is not executed": '
+    'syntax and symbol errors must be reported with exit 65; ill-formed values and missing files may be reported or '
+    'not (exit 0 with the report) - in both cases nothing may be executed',
+    'where the identifier is printed (stdout; stderr under --keep / --act) is not demanded here: it is looked for on '
+    'stdout first, then on stderr (a mistake in the suite file is reported on stdout even under --keep / --act)',
+    'a replacement template is judged together with its REGEX: it is demanded to be refused before execution only '
+    'when the REGEX is a constant (a REGEX that refers to a symbol may be put together when the instruction runs)',
 ]
 
 IPHASES = ['setup', 'before-assert', 'assert', 'cleanup']
@@ -476,12 +524,12 @@ def judge_defect(case, d, o, built):
         return 'exception-or-timeout', {}
     if mode == 'act' and cph in ('before-assert', 'assert') and cls != CG.CLS_SYNTAX and o['exit'] != 65:
         # --act: "[before-assert] and [assert] are skipped" - the manual does not say whether they are validated
-        return None
+        return 'tolerated', 'act-mode-skipped-phase-not-validated'
     if mode.startswith('symbol') and cls in (CG.CLS_VALUE, CG.CLS_FILE) and o['exit'] == 0:
         # `symbol` reports "errors corresponding to the outcome of running", "but the case is not executed": the
         # manual does not say whether values and files are looked at; nothing may happen in any case
         what = nothing_happened(o)
-        return (what, {}) if what else None
+        return (what, {}) if what else ('tolerated', 'symbol-command-does-not-look-at-values')
     what = nothing_happened(o)
     if what:
         return what, {}
@@ -518,9 +566,13 @@ def check_generated(case) -> Verdict:
     car = case['carrier']
     cph = car['ph']
     ctl = GC.build_files(case, None)
-    oc = _observe(ctl['files'], ['t.case'])
+    oc = _observe(ctl['files'], GC.argv_for('run', ctl)[1])
     instr = car['elems'][0]['name']
     base_labels = ['ph:' + cph, 'where:' + car['where'], _pos_label(case), 'control:%s' % _first_line(oc['out'])]
+    if car['where'] == 'inc' and car.get('inc_from') not in (None, cph):
+        base_labels.append('included-from-other-phase')
+    if car['where'] == 'suite':
+        base_labels.append('suite:' + ('--suite' if car.get('suite_explicit') else 'exactly.suite'))
     if GC.is_at_eof(case):
         base_labels.append('at-eof')
         if cph == 'cleanup' and car['where'] == 'main':
@@ -547,13 +599,14 @@ def check_generated(case) -> Verdict:
     keys = []
     # ---- `exactly symbol` on the valid case: reports, executes nothing
     if case.get('symbol_check'):
-        for argv in (['symbol', 't.case'], ['symbol', 't.case', 'S'], ['symbol', 't.case', 'S', '--ref']):
+        for smode in ('symbol', 'symbol-def', 'symbol-ref'):
+            argv = GC.argv_for(smode, ctl)[1]
             osym = _observe(ctl['files'], argv)
             what = nothing_happened(osym)
             listing = None
             if not what and osym['exit'] != 0:
                 what = 'valid-case-not-reported'
-            if not what and len(argv) == 2:
+            if not what and smode == 'symbol':
                 listing = MODEL.parse_symbol_list(osym['out'])
                 want = MODEL.expected_symbol_list(CG.PRELUDE_SYMBOLS, car['elems'])
                 if listing is None:
@@ -563,7 +616,7 @@ def check_generated(case) -> Verdict:
                 elif sorted(listing) != sorted(want):
                     what = 'listing-with-other-reference-counts'
                 detail['expected_listing'] = want
-            if not what and len(argv) == 3 and not osym['out'].startswith('string'):
+            if not what and smode == 'symbol-def' and not osym['out'].startswith('string'):
                 what = 'definition-not-reported'
             labels.append('symbol-cmd-on-valid')
             if what:
@@ -589,15 +642,22 @@ def check_generated(case) -> Verdict:
         if op['op'] == 'wrong-type':
             dl += ['wrong-type:' + op['wtype'], 'chain-depth:%d' % op['depth']]
         if 'later' in op:
-            dl.append('later:%s%s' % (op['later']['place'],
-                                      '/textually-earlier' if built['later_textually_earlier'] else ''))
+            dl.append('later:' + built['later_where'])
+        if any(e.get('use_of') for e in car['elems']) and d['ei'] == 0:
+            dl.append('in-definition-used-elsewhere:' + op['cls'])
         if op['op'] in ('relativity-via-symbol', 'relativity-option'):
             dl.append('rel:%s/%s' % (op['op'], op['rel']))
         if op['op'] == 'relativity-via-symbol':
-            dl += ['rel-form:' + op['form'], 'rel-chain-depth:%d' % op['depth']]
+            dl += ['rel-via:%s/depth-%d' % (op['form'], op['depth'])]
+        if op['op'] == 'wrong-type-in-path':
+            dl += ['in-path:%s/%s' % (op['wtype'], 'with-relativity' if op['with_rel'] else 'default-relativity'),
+                   ]
         if op['op'] == 'missing-home-file':
-            dl += ['missing:' + op['form'], 'missing-at:' + op['what']]
+            dl += ['missing:' + op['form']]
         verdict = judge_defect(case, d, o, built)
+        if verdict is not None and verdict[0] == 'tolerated':
+            dl.append(verdict[1])
+            verdict = None
         ident = _first_line(o['out']) or _first_line(o['err'])
         dl.append('outcome:%s' % (ident if o['exit'] == 65 else 'exit-%s' % o['exit']))
         labels += dl
@@ -620,4 +680,5 @@ SUBS = [
         budget={'quick': 800, 'thorough': 30000}),
     Sub('generated_defect', check_generated, strategy=lambda tier: GC.generated_cases(tier),
         budget={'quick': 1500, 'thorough': 40000}),
+    Sub('enumerated_defects', check_generated, enumerate=GC.enumerated_cases),
 ]
